@@ -97,8 +97,11 @@ def run_case(case, ctx):
             repeats.extend([r1, r2])
             objs['entry'] = r1
         elif structure == 'implicit':
+            # (optionally) a filter that strips everything but the value: the implicit Repeat
+            # then gets an event without the 'source' item
+            flt = edzed.DataEdit.permit('value') if case.get('strip_source') else None
             src = edzed.Input('src', initdef=case.get('initdef', 'init'), on_output=edzed.Event(
-                dst, 'put', repeat=interval, count=count))
+                dst, 'put', repeat=interval, count=count, efilter=flt))
             objs['src'] = src
             autos = list(edzed.get_circuit().getblocks(edzed.Repeat))
             if len(autos) != 1:
@@ -142,6 +145,12 @@ def run_case(case, ctx):
                     else:
                         edzed.ExtEvent(objs['entry'], 'put', source=f"app{n}").send(
                             f"v{n}", uid=n, extra=('x', n))
+                elif kind == 'nosrc' and 'src' not in objs:
+                    # a direct event() call: the optional 'source' item is missing
+                    ctx.count('events_without_source')
+                    objs['entry'].event('put', value=f"v{n}", uid=n)
+                elif kind == 'nosrc':
+                    edzed.ExtEvent(objs['src']).send(f"v{n}")
                 elif kind == 'same':
                     # Input: same value again -> no output change -> no event at all
                     if 'src' in objs:
@@ -408,7 +417,7 @@ def gen(ctx):
         n = rng.randint(1, 4)
         arrivals = [[rng.choice([0.25, 0.0, 1.0]), 'put']]
         for _ in range(n - 1):
-            kind = rng.choice(['put', 'put', 'put', 'other', 'same'])
+            kind = rng.choice(['put', 'put', 'put', 'other', 'same', 'nosrc'])
             arrivals.append([rng.choice(DELTAS), kind])
         total = sum(d for d, _ in arrivals)
         case = {'structure': structure, 'count': rng.choice(COUNTS), 'arrivals': arrivals,
@@ -419,6 +428,8 @@ def gen(ctx):
             case['latency'] = rng.choice([1e-4, 2e-3])
         if rng.random() < 0.25:
             case['stopmode'] = 'double'
+        if structure == 'implicit' and rng.random() < 0.4:
+            case['strip_source'] = True
         yield case, False
 
 
